@@ -158,10 +158,13 @@ def run(ctx):
     rwm = ctx.rule('R-WGMODE', 'WaitGroup: Consume takes the cores from the futures, registers the releasing callback and '
                    'releases already complete inputs; Attach does none of the three; every public overload selects the '
                    'mode its name says', minimum=12)
+    rww = ctx.rule('R-WGWAIT', 'WaitGroup::Wait / WaitFor / WaitUntil answer through the event only (Wait reaches the '
+                   'event\'s wait on every path, the timed forms return its answer as is): the counter is zero before '
+                   'Set has finished with the event', minimum=3)
     rwr = ctx.rule('R-WGRESET', 'WaitGroup::Reset re-arms the event and sets the counter', minimum=1)
     for cfg, fb in sorted(fbs.items()):
         from rules import lib_wg
-        if (ctx.guard(lambda: lib_wg.check_wait_group(ctx, fb, rwm, rwr)) or 0) < 10 and cfg == 'K20':
+        if (ctx.guard(lambda: lib_wg.check_wait_group(ctx, fb, rwm, rwr, rww)) or 0) < 10 and cfg == 'K20':
             ctx.guard(lambda: ctx.broken('R-WGMODE: WaitGroup Consume / Attach forms not instantiated in %s' % cfg))
         ctx.guard(lambda: lib_order.check_cas_fresh(ctx, fb, rcf, lambda f: 'OneShotEvent' in f.qn or 'one_shot_event' in f.file))
         ctx.guard(lambda: lib_shape.check(ctx, fb, rsh, lambda qn: 'SetImpl' in qn and 'BaseCore' not in qn, 1))
